@@ -126,7 +126,7 @@ class C07(Check):
             'different variants on a program whose one-of had a losing candidate or whose recurrent subgraph iterated; '
             'distinct = digest of (program, ops)')
     quick_examples = 500
-    thorough_examples = 1500
+    thorough_examples = 5000
     max_steps = 6
     assumptions = EngineCheck.assumptions
 
